@@ -15,7 +15,7 @@ LEVEL_TEXT = ("Theorems: in every run of a tick, `finished` is raised exactly wh
 LEVEL_NOTE = "Trusts: Lean kernel; hand-written models; nesting and interrupt timing carried by trace validation."
 ASSUMPTIONS = ["no device asks to be called back in the past (for monotonicity)"]
 MON = ("ticker", "tick_times", "device_order")
-CORR = ("ticker", "sim")
+CORR = ('ticker', 'ticks')
 
 
 def race_scenarios(rng, tier):
